@@ -233,6 +233,14 @@ pub(crate) mod verif_block {
         let c = super::skip_container_loop(data, &mut pi, &mut pe, &mut l, &mut r, left, right);
         (c.map(|x| x.get()), (pi, pe, l, r))
     }
+    /// `skip_string_unchecked` on the text after an opening quote: (bytes consumed up to and
+    /// including the closing quote, status is `HasEscaped`); `None` = end of input
+    pub fn skip_string(data: &[u8]) -> Option<(usize, bool)> {
+        use crate::reader::Reader;
+        let mut p = super::Parser::new(crate::reader::Read::new(data, false));
+        let st = unsafe { p.skip_string_unchecked() }.ok()?;
+        Some((p.read.index(), st == super::ParseStatus::HasEscaped))
+    }
 }
 
 pub(crate) struct Pair<'de> {
